@@ -64,6 +64,12 @@ auto verif_shape_flatten(sv_t shape) { return ix::shape_flatten(shape,nm::None);
 // swapaxes: view::swapaxes passes dim<true>(array); a bounded-dim array gives a clipped integer (run-time dim would yield std::vector)
 auto verif_swapaxes_to_transpose(nm_size_t dim, int axis1, int axis2) { return ix::swapaxes_to_transpose(nm::clipped_size_t<8>(dim),axis1,axis2); }
 auto verif_moveaxis_to_transpose(sv_t shape, int source, int destination) { return ix::moveaxis_to_transpose(shape,source,destination); }
+// moveaxis with axis LISTS (normalize_axis on both lists, argsort of the destinations, repeated shift-insert):
+//   fixed list length 2 (nmtools_array<int,2>: the list loops are constant-trip, the rank stays symbolic) and
+//   bounded lists utl::static_vector<int,8> (symbolic length 0..8)
+using ai2_t = nmtools_array<int,2>;
+auto verif_moveaxis_to_transpose_l2(sv_t shape, ai2_t source, ai2_t destination) { return ix::moveaxis_to_transpose(shape,source,destination); }
+auto verif_moveaxis_to_transpose_list(sv_t shape, svi_t source, svi_t destination) { return ix::moveaxis_to_transpose(shape,source,destination); }
 
 // ---- flip: view::flip(a,axis) = apply_slice(a, flip_slices(dim<true>(a), axis)); slice (None,None,-1) on the flipped axes.
 //      dim as a compile-time constant (fixed-dim arrays; a run-time dim yields std::vector, a clipped dim does not compile: flip.hpp:74)
